@@ -121,12 +121,19 @@ def liftE {α : Type} : Except Err α → M α
   | .error e => Prog.fail e
 
 /-- `a[b[0]]`: the lexer fuses the two closers into one `]]` token; the matcher takes them apart
-    again when it expects a single `]` and the bracket around it is a `[` as well -/
+    again when it expects a single `]` and the bracket around it is a `[` as well (expectations `>` between the two — `<` that
+    were less-than, `a[i < b[0]]` — are dropped with it) -/
 def fusedClosers (ty expected : String) (stack : List String) : Bool :=
-  ty == "DBL_RBRACKET" && expected == "]" && stack.head? == some "]"
+  ty == "DBL_RBRACKET" && expected == "]" && (stack.dropWhile (· == ">")).head? == some "]"
 
 /-- one of the two `]` a fused `]]` stands for -/
 def unfused (tok : CTok) : CTok := { tok with type := "]", value := "]" }
+
+/-- a `<` still open when a `]]` arrives inside a subscript was a less-than: the expectations `>` on top of the stack are
+    dropped (`while expected == ">" and match_stack: expected = match_stack.pop()`) -/
+def skipGt : String → List String → String × List String
+  | expected, [] => (expected, [])
+  | expected, e :: stack => if expected = ">" then skipGt e stack else (expected, e :: stack)
 
 /-- one iteration of `_consume_balanced_tokens` after `tok` was read; `stack` has its top first -/
 def balStep (st : List CTok × List String) (tok : CTok) : Except Err ((List CTok × List String) ⊕ List CTok) :=
@@ -134,10 +141,12 @@ def balStep (st : List CTok × List String) (tok : CTok) : Except Err ((List CTo
   if isBalancedEnd tok.type then
     match st.2 with
     | [] => .error (.py "IndexError" "pop from an empty deque")
-    | expected :: stack =>
+    | expected0 :: stack0 =>
+      let expected := if tok.type = "DBL_RBRACKET" then (skipGt expected0 stack0).1 else expected0
+      let stack := if tok.type = "DBL_RBRACKET" then (skipGt expected0 stack0).2 else stack0
       if fusedClosers tok.type expected stack then
         let consumed := st.1 ++ [unfused tok, unfused tok]
-        let stack := stack.tail
+        let stack := (stack.dropWhile (· == ">")).tail
         if stack.isEmpty then .ok (.inr consumed) else .ok (.inl (consumed, stack))
       else if tok.type != expected then
         -- hack: assume `<`/`>` are doing math
